@@ -33,6 +33,12 @@ RULE = (
     "> length/2, reducers, out shapes x0.3..x3 incl. odd<->even, both copying and in-place variants. non-trivial = non-constant data and "
     "(some bin factor > 1 | some output length != input length | some pad width > 0); distinct = (op, ndim, parity pattern of the shape, "
     "dtype kind, number of axes operated on); for histories: non-trivial = >= 2 distinct op kinds and >= 1 in-place step, distinct = the op sequence"
+    " Widening classes on every case: the array argument comes in a random memory layout / ownership (C, Fortran, permuted, strided [::2], negative stride, "
+    "interior view, read-only), the dataset is built through one of the equivalent public routes (from_array with calibration / bare + setters / from_shape + array "
+    "setter / via copy() / default calibration), float and complex data come in scale families (plain, amplitude 1e+8, 1e-8, weak contrast on a pedestal 1e3..1e6 in single and "
+    "1e9..1e12 in double precision), and every library call of 4 in 8 cases runs under process-global state a user may have set (numpy errstate raise, torch default dtype "
+    "float64 + grad disabled, numpy print options, quantem config dtype float64), restored afterwards; neutral calls (repr, str, discarded copy / index, property reads, "
+    "reductions, calibration written back) are interleaved and must change nothing"
 )
 ASSUMPTIONS = [
     "float64 / complex128 / integer inputs are judged at 1e-10 relative to the data (or coordinate) scale; float32 / complex64 inputs, for which "
@@ -49,6 +55,10 @@ ASSUMPTIONS = [
     "big bin / pad / crop inputs use the full range of uint8 / uint16 / int16 / int32 (block sums leave the input dtype's range; int64 accumulators "
     "cannot overflow: |v| < 2**31, block volume <= 49) and bool masks (bin of a mask counts the True pixels; bool is used for bin / pad / crop only); "
     "the result dtype of an integer sum is not prescribed beyond being an integer type that holds the exact sums",
+    "expected results do not depend on memory layout, ownership (read-only input), construction route or process-global state; on /repo none of these forms raises",
+    "axes=np.int64(k) (a bare NumPy integer, not inside a tuple) raises TypeError on /repo and is not generated; tuples / lists of NumPy integers are",
+    "scale families are judged relative to max|data| like every other case (pedestal cases therefore test accumulation precision, not contrast recovery)",
+    "class 7 of the widening list (containers with mixed members) does not apply: the Dataset operations take one array",
 ]
 BUDGET = {"quick": {"soft_s": 100}, "thorough": {"soft_s": 560}}
 MIN_EVALUATIONS = {"quick": 5000, "thorough": 100000}
@@ -81,14 +91,19 @@ def setup(ctx):
 
     ctx.state["cls"] = {0: Dataset, 2: Dataset2d, 3: Dataset3d, 4: Dataset4d, "4dstem": Dataset4dstem}
     ctx.state["evidence_extra"] = {"rs_phase_exact_worst": 0.0, "rs_phase_exact_n": 0}
+    G.install_state_wrappers(Dataset, ctx)
 
 
 # ------------------------------------------------------------------------------------------------
 # generators
 
 
+CONSTRUCT_FORMS = ["from_array", "from_array", "bare_then_setters", "from_shape_then_array_setter", "via_copy", "default_calibration"]
+
+
 def _make(ctx, rng, arr):
-    """A real dataset around a private copy of arr, with random calibration; class chosen among those valid for ndim."""
+    """A real dataset holding arr's values in a random memory layout (C / Fortran / permuted / strided / negative stride / interior view /
+    read-only), built through one of the equivalent public construction routes, random calibration; class chosen among those valid for ndim."""
     cls = ctx.state["cls"]
     nd = arr.ndim
     C = cls[0]
@@ -98,7 +113,30 @@ def _make(ctx, rng, arr):
     elif nd == 4 and u < 0.45:
         C = cls[4] if u < 0.2 else cls["4dstem"]
     o, s, units = G.rand_calibration(rng, nd)
-    ds = C.from_array(arr.copy(), name="c06", origin=o, sampling=s, units=units)
+    data, lay = G.layout(rng, arr)
+    form = CONSTRUCT_FORMS[int(rng.integers(len(CONSTRUCT_FORMS)))]
+    if form == "from_shape_then_array_setter" and not hasattr(C, "from_shape"):
+        form = "bare_then_setters"
+    if form == "from_array":
+        ds = C.from_array(data, name="c06", origin=o, sampling=s, units=units)
+    elif form == "default_calibration":
+        ds = C.from_array(data)
+    elif form == "via_copy":
+        ds = C.from_array(data, name="c06", origin=o, sampling=s, units=units).copy()
+        lay = "c(copy)"
+    else:
+        if form == "bare_then_setters":
+            ds = C.from_array(data)
+        else:
+            ds = C.from_shape(tuple(arr.shape))
+            ds.array = data
+        ds.name = "c06"
+        ds.units = units
+        ds.sampling = s
+        ds.origin = o
+    ctx.state["last_make"] = {"layout": lay, "construct": form}
+    ctx.count("layout:" + lay)
+    ctx.count("construct:" + form)
     return ds
 
 
@@ -113,7 +151,8 @@ def _pick_axes(rng, ndim):
     k = int(rng.integers(1, ndim + 1))
     axes = [int(x) for x in rng.permutation(ndim)[:k]]
     if u < 0.85:
-        return "subset", axes, (tuple(axes) if rng.random() < 0.7 else list(axes))
+        v = rng.random()
+        return "subset", axes, (tuple(axes) if v < 0.55 else (list(axes) if v < 0.8 else tuple(np.int64(a) for a in axes)))
     if k == 1 and rng.random() < 0.5:
         return "negative", axes, axes[0] - ndim
     return "negative", axes, tuple(a - ndim if (i == 0 or rng.random() < 0.6) else a for i, a in enumerate(axes))
@@ -200,6 +239,7 @@ def _case_bin(spec, idx, ctx):
     inplace = bool(rng.random() < 0.4)
     prec = G.precision(dtype)
     fields = {"op": "bin", "dkind": spec["dkind"], "prec": prec, "ndim": spec["ndim"], "axes_form": form, "inplace": inplace, "reducer": reducer}
+    ctx.count("combo:bin:axes=%s:factors=%s:%s:%s" % (form, fac_form, reducer, "inplace" if inplace else "copying"))
     o0, s0 = _cal(ds)
     kw = {}
     if axes_arg is not None:
@@ -425,6 +465,7 @@ def _case_rs(spec, idx, ctx):
         lens = [max(1, int(round(shape[ax] * f))) for ax, f in zip(axes, free_factors)]
     a2m = dict(zip(axes, lens))
     exp_shape = tuple(a2m.get(i, shape[i]) for i in range(ndim))
+    ctx.count("combo:resample_%s:axes=%s:%s:%s" % (sub, form, arg_form if free_factors is None else "free_factors", "inplace" if inplace else "copying"))
     what = lambda: "shape=%s dtype=%s axes=%r -> %s via %s inplace=%s" % (shape, dtype, axes_arg, exp_shape, arg_form, inplace)
 
     def shape_ok(res, tag=""):
@@ -575,7 +616,11 @@ def _case_padcrop(spec, idx, ctx):
     else:
         cw = tuple((before[i], before[i] + shape[i]) for i in padded_axes)
         ckw = {"axes": padded_axes[0] if (len(padded_axes) == 1 and rng.random() < 0.5) else tuple(padded_axes)}
+    if rng.random() < 0.3:
+        cw = [[np.int64(lo), np.int32(hi)] for lo, hi in cw]  # list of lists with NumPy integers instead of a tuple of tuples
+        spell += "_lists_npint"
     fields["crop_spelling"] = spell
+    ctx.count("combo:padcrop:%s:%s:%s" % (mode, spell, "inplace" if inplace else "copying"))
     if inplace:
         r = padded.crop(cw, modify_in_place=True, **ckw)
         ctx.check(r is None, "inplace_returns_value", "crop(modify_in_place=True) returned %r" % type(r).__name__, **fields)
@@ -725,6 +770,14 @@ def _case_history(spec, idx, ctx):
                 trail.append("(continue on the copy)")
         done.append(k + ("_ip" if inplace else ""))
         trail.append("%s %r%s" % (k, desc, " in place" if inplace else ""))
+        if rng.random() < 0.4 and ds.array.size:
+            # a neutral call between two steps (repr, str, discarded copy / index, property reads, reductions, calibration written back)
+            b_arr, (b_o, b_s), b_u = np.array(ds.array, copy=True), _cal(ds), list(ds.units)
+            nc = G.neutral_call(rng, ds)
+            a_o, a_s = _cal(ds)
+            same = np.array_equal(np.asarray(ds.array), b_arr) and ds.array.dtype == b_arr.dtype and np.array_equal(a_o, b_o) and np.array_equal(a_s, b_s) and list(ds.units) == b_u
+            ctx.check(same, "neutral_call_changed_state", lambda: "%s: then %s changed the dataset" % (what(), nc), neutral=nc, **{k2: v2 for k2, v2 in fields.items() if k2 in ("dkind", "prec", "ndim")})
+            trail.append("(%s)" % nc)
         if not ds.array.size:
             break
     ctx.nontrivial(("history", ndim, dk, tuple(done)), len(set(d.split("_ip")[0] for d in done)) >= 2 and bool(ip_done))
@@ -1006,6 +1059,23 @@ def _case_big(spec, idx, ctx):
 
 
 def run_case(spec, idx, ctx):
+    import warnings
+
+    # process-global state a user may have set: applied around every library call of this case (outermost method wrapper), restored after it
+    ctx.state["gstate"] = "none" if spec["kind"] == "big" else G.GSTATES[idx % len(G.GSTATES)]
+    ctx.state["last_make"] = {}
+    try:
+        _run_case(spec, idx, ctx)
+    finally:
+        tags = dict(ctx.state.get("last_make") or {}, gstate=ctx.state["gstate"])
+        for rec in ctx._case["viol"]:
+            for k2, v2 in tags.items():
+                rec.setdefault(k2, v2)
+        ctx.observe(**tags)
+        ctx.state["gstate"] = "none"
+
+
+def _run_case(spec, idx, ctx):
     import warnings
 
     with warnings.catch_warnings():
